@@ -154,7 +154,7 @@ func (w *World) resolveType(env *CEnv, t *CType) types.Type {
 			}
 		}
 	default:
-		if p := w.findPackage(env, t.Pkg); p != nil {
+		if p := w.findPackage(env, t.Pkg, t.Name); p != nil {
 			if o := p.Scope().Lookup(t.Name); o != nil {
 				base = o.Type()
 			}
@@ -174,10 +174,10 @@ func (w *World) resolveType(env *CEnv, t *CType) types.Type {
 
 // findPackage resolves a package qualifier: an import name of the contract's
 // package, or the name/path of any loaded package.
-func (w *World) findPackage(env *CEnv, name string) *types.Package {
+func (w *World) findPackage(env *CEnv, name string, member string) *types.Package {
 	if env.pkg != nil {
 		for _, imp := range env.pkg.Imports() {
-			if imp.Name() == name {
+			if imp.Name() == name && (member == "" || imp.Scope().Lookup(member) != nil) {
 				return imp
 			}
 		}
@@ -196,9 +196,18 @@ func (w *World) findPackage(env *CEnv, name string) *types.Package {
 		}
 	}
 	var found *types.Package
-	for _, p := range w.l.All {
+	var paths []string
+	for path := range w.l.All {
+		paths = append(paths, path)
+	}
+	sort.Strings(paths)
+	for _, path := range paths {
+		p := w.l.All[path]
 		if p.Types != nil && p.Types.Name() == name {
-			if found == nil || strings.HasPrefix(p.PkgPath, modPath) {
+			if member != "" && p.Types.Scope().Lookup(member) == nil {
+				continue
+			}
+			if found == nil || strings.HasPrefix(p.PkgPath, modPath) && !strings.HasPrefix(found.Path(), modPath) {
 				found = p.Types
 			}
 		}
@@ -435,7 +444,7 @@ func (w *World) evalSel(env *CEnv, e *CExpr) *Val {
 	if id := e.Args[0]; id.Op == "id" {
 		if _, isVar := env.vars[id.Name]; !isVar && !w.isLet(env, id.Name) {
 			if env.fr == nil || w.localByNameExists(env, id.Name) == false {
-				if p := w.findPackage(env, id.Name); p != nil {
+				if p := w.findPackage(env, id.Name, e.Name); p != nil {
 					if v := w.lookupObject(env, p, e.Name); v != nil {
 						return v
 					}
